@@ -541,6 +541,10 @@ pub struct ProcCase {
     pub order: Vec<usize>,
     /// receive after every send (eager) or only at the end (delayed)
     pub eager: bool,
+    /// every send is preceded, in the same process, by a send of another message to a channel
+    /// whose receiver is gone (it fails); nothing of it may show up in the stream
+    #[serde(default)]
+    pub failed_before: bool,
 }
 
 fn proc_body(c: &ProcCase) -> Result<(), String> {
@@ -557,10 +561,23 @@ fn proc_body(c: &ProcCase) -> Result<(), String> {
                 libc::close(p2c[1]);
                 libc::close(c2p[0]);
                 let h = tx.clone();
+                let dead = if c.failed_before {
+                    ipc::channel::<Vec<u8>>().ok().map(|(t, r)| {
+                        drop(r);
+                        t
+                    })
+                } else {
+                    None
+                };
                 for (k, sz) in seq.iter().enumerate() {
                     let mut b = [0u8; 1];
                     if libc::read(p2c[0], b.as_mut_ptr() as *mut _, 1) != 1 {
                         libc::_exit(3);
+                    }
+                    if let Some(d) = &dead {
+                        if d.send(payload(90 + i as u32, k as u32, 300)).is_ok() {
+                            libc::_exit(4);
+                        }
                     }
                     let r = h.send(payload(i as u32, k as u32, sz.len()));
                     let a = [if r.is_ok() { 1u8 } else { 0u8 }];
@@ -831,7 +848,9 @@ fn proc_cases(tier: Tier) -> Vec<ProcCase> {
     for m in mixes {
         for o in &orders {
             for eager in [false, true] {
-                out.push(ProcCase { seqs: m.clone(), order: o.clone(), eager });
+                for failed_before in [false, true] {
+                    out.push(ProcCase { seqs: m.clone(), order: o.clone(), eager, failed_before });
+                }
             }
         }
     }
